@@ -91,8 +91,17 @@ type valSpec struct {
 	token    uint64
 	badMain  bool // MainPubKey bytes do not decode
 	badBls   bool // BlsPubKey bytes do not decode
+	blsKey   *keyPair // re-registration: the BLS key registered with this main address (nil = key's own BLS key)
 	mainByts []byte
 	blsByts  []byte
+}
+
+// bls returns the key pair whose BLS key is registered for this validator
+func (v *valSpec) bls() *keyPair {
+	if v.blsKey != nil {
+		return v.blsKey
+	}
+	return v.key
 }
 
 func (v *valSpec) kind() int {
@@ -111,12 +120,12 @@ type lookBack struct {
 func buildLookBack(specs []*valSpec) *lookBack {
 	lb := &lookBack{specs: specs, stat: state.NewValidatorsStat(), byAddr: map[common.Address]*state.Validator{}}
 	for i, s := range specs {
-		s.mainByts, s.blsByts = s.key.mainPK, s.key.blsPK
+		s.mainByts, s.blsByts = s.key.mainPK, s.bls().blsPK
 		if s.badMain {
 			s.mainByts = append([]byte{0x05}, s.key.mainPK[1:]...) // invalid prefix: does not decompress
 		}
 		if s.badBls {
-			s.blsByts = append([]byte{}, s.key.blsPK[:95]...) // wrong length
+			s.blsByts = append([]byte{}, s.bls().blsPK[:95]...) // wrong length
 		}
 		status := params.ValidatorOffline
 		if s.online {
